@@ -81,6 +81,9 @@ fn fmt_log_out(out: &mut String, log: &[Entry]) {
             Entry::DistRaw { bits } => {
                 let _ = write!(s, " d:{:016x}", bits);
             }
+            // (ag-sim: temporary, newer hook entries are not printed by this harness version)
+            #[allow(unreachable_patterns)]
+            _ => {}
         }
     }
     let _ = writeln!(out, "{}", s);
@@ -137,7 +140,7 @@ fn fmt_snapshot(out: &mut String, f: &Framework<Vec<Machine>, ScriptRng, VInstan
         Some(None) => "all".to_string(),
         Some(Some(i)) => format!("x{}", i),
     };
-    let _ = writeln!(out, "o GS {} {} {}", sig, s.counter_zeroed_once.0 as u8, s.counter_zeroed_once.1 as u8);
+    let _ = writeln!(out, "o GS {} {} {}", sig, s.counter_zeroed_once.iter().any(|x| x.0) as u8, s.counter_zeroed_once.iter().any(|x| x.1) as u8);
 }
 
 fn panic_class(p: &Box<dyn std::any::Any + Send>) -> &'static str {
